@@ -441,11 +441,12 @@ def startup_data_dir():
                   'file it creates lies outside the configured data directory' % (spelling, got, seen), {'startup': spelling}))
   # an explicitly configured data directory stays where carbon.conf puts it, whatever a [cache:<instance>] section says
   # about the storage root
-  explicit = '/srv/graphite/storage/whisper'
-  for over in ({'STORAGE_DIR': '/srv/graphite/storage-b'}, {'STORAGE_DIR': '/srv/graphite/storage-b', 'LOCAL_DATA_DIR': explicit},
-               {'LOG_DIR': '/srv/graphite/storage-b/log'}):
+  # ({ROOT} = the scratch directory of that start-up: the start-up creates PID_DIR below the storage root)
+  explicit = '{ROOT}/graphite/storage/whisper'
+  for over in ({'STORAGE_DIR': '{ROOT}/graphite/storage-b'}, {'STORAGE_DIR': '{ROOT}/graphite/storage-b', 'LOCAL_DATA_DIR': explicit},
+               {'LOG_DIR': '{ROOT}/graphite/storage-b/log'}):
     n += 1
-    base = {'STORAGE_DIR': '/srv/graphite/storage', 'LOCAL_DATA_DIR': explicit}
+    base = {'STORAGE_DIR': '{ROOT}/graphite/storage', 'LOCAL_DATA_DIR': explicit}
     try:
       r = daemonconf.effective('carbon-cache', base, over, 'b', keys=['LOCAL_DATA_DIR'])
     except Exception as e:   # noqa
